@@ -147,6 +147,13 @@ def harmonic_set(a: PointTensor, b: PointTensor, c: PointTensor) -> PointTensor:
         The point that forms a harmonic set with the given points.
 
     """
+    if a.dim == 1:
+        # on the projective line the harmonic conjugate of c = x*a + y*b with respect to a, b is x*a - y*b
+        a_arr, b_arr, c_arr = np.broadcast_arrays(a.array, b.array, c.array)
+        x = det(np.stack([c_arr, b_arr], axis=-2))
+        y = det(np.stack([a_arr, c_arr], axis=-2))
+        return PointCollection.from_array(x[..., None] * a_arr - y[..., None] * b_arr)
+
     l = join(a, b)
     o = l.general_point
     n = l.dim + 1
